@@ -694,11 +694,31 @@ func (l *PartitionLog) computeSegmentRange(seg segmentRange, entries []*IndexEnt
 	end := endLimit - 1
 	if maxBytes > 0 {
 		maxEnd := start + int64(maxBytes) - 1
+		if offset > entry.Offset {
+			// The index is sparse: the batch holding offset starts somewhere between
+			// this entry and the next one. Cutting at maxBytes could return only
+			// batches below offset, which the consumer discards before re-sending
+			// the same fetch forever. Always read up to the next index entry (a
+			// batch boundary past the batch holding offset).
+			if minEnd := nextIndexPosition(entries, offset, endLimit) - 1; maxEnd < minEnd {
+				maxEnd = minEnd
+			}
+		}
 		if maxEnd < end {
 			end = maxEnd
 		}
 	}
 	return start, end
+}
+
+// nextIndexPosition returns the byte position of the first index entry whose offset is
+// greater than offset, or fallback when there is none.
+func nextIndexPosition(entries []*IndexEntry, offset int64, fallback int64) int64 {
+	i := sort.Search(len(entries), func(i int) bool { return entries[i].Offset > offset })
+	if i < len(entries) {
+		return int64(entries[i].Position)
+	}
+	return fallback
 }
 
 func findIndexEntry(entries []*IndexEntry, offset int64) *IndexEntry {
